@@ -400,3 +400,22 @@ Proof. split; intros H; exact H. Qed.
     NOT in the language of the argument's parser") is the documented language *)
 Theorem in_lang_reading vp s : ClapModel.ParseProofs.ErrorSound.in_lang vp s <-> stored_reading vp s.
 Proof. rewrite <- ClapModel.ParseProofs.ErrorSound.vp_parse_accepts_iff. apply accepts_reading. Qed.
+
+(** * two names, one parser: the model's older constructors are instances of [VPRanged] *)
+Theorem embed_determines vp1 vp2 p s : embed vp1 = Some p -> embed vp2 = Some p -> vp_parse vp1 s = vp_parse vp2 s.
+Proof.
+  intros E1 E2. pose proof (bridge vp1 p s E1) as B1. pose proof (bridge vp2 p s E2) as B2.
+  destruct (VP.vparse p s) as [v|k]; congruence.
+Qed.
+
+(** [value_parser!(i64).range(lo..=hi)] under either name; the u8 parser of [ArgAction::Count] is
+    [value_parser!(u8)] = [VPRanged U8 0 255] *)
+Theorem ranged_alias lo hi s :
+  vp_parse (Cmd.VPRanged VB.I64 lo hi) s = vp_parse (Cmd.VPI64 lo hi) s /\
+  vp_parse (Cmd.VPRanged VB.U8 0 255) s = vp_parse Cmd.VPCount s.
+Proof.
+  split.
+  - apply (embed_determines _ _ (VP.VPRanged VB.PI64 (VB.Included lo, VB.Included hi) VB.I64)); reflexivity.
+  - apply (embed_determines _ _ (VP.VPRanged VB.PI64 (VB.Included 0%Z, VB.Included 255%Z) VB.U8)); [reflexivity|].
+    cbn [embed]. rewrite factory_u8. reflexivity.
+Qed.
